@@ -130,7 +130,7 @@ func runC09(c *Ctx) {
 					}
 					other.Conn.Raw(fmt.Sprintf("OTHER %d %s", k, strings.Repeat("o", rr.Intn(300))))
 					atomic.AddInt64(&otherN, 1)
-					if k > 20000 {
+					if k > 60000 {
 						return
 					}
 				}
